@@ -35,6 +35,7 @@ inductive Event where
   | load (c : Nat)
   | add (c : Nat)
   | release (c : Nat)
+  | reset              -- `workerIDCount = 1` (not part of the protocol: only `stepR` enables it)
   deriving DecidableEq, Repr
 
 def init : State := { ctr := 1, holder := none, pc := fun _ => .idle, issued := [] }
@@ -58,6 +59,19 @@ def step (locked : Bool) (s : State) : Event → Option State
     | .added v =>
       some (setPc { s with holder := if locked then none else s.holder, issued := v :: s.issued } c .idle)
     | _ => none
+  | .reset => none
+
+/-- the protocol extended by a reset of the counter to its initial value (what a pool that
+    "numbers its workers from the beginning again" after a restart would do) -/
+def stepR (locked : Bool) (s : State) : Event → Option State
+  | .reset => some { s with ctr := 1 }
+  | e => step locked s e
+
+def runR (locked : Bool) (s : State) : List Event → Option State
+  | [] => some s
+  | e :: es => match stepR locked s e with
+    | some s' => runR locked s' es
+    | none => none
 
 def run (locked : Bool) (s : State) : List Event → Option State
   | [] => some s
@@ -200,6 +214,7 @@ theorem inv_step {s s' : State} {e : Event} (h : Inv s) (hs : step true s e = so
       · intro x w hx; simp [hall x] at hx
       · intro x w hx; simp [hall x] at hx
     · cases hs
+  | reset => simp [step] at hs
 
 theorem inv_reach {s : State} (h : Reach true s) : Inv s := by
   induction h with
@@ -233,5 +248,17 @@ def oneAtomicRmw (ts : List String) : Bool := ts.filter isAccess = ["aadd-used"]
 
 /-- the read and the increment of the counter cannot be separated by another caller -/
 def isAtomicAlloc (ts : List String) : Bool := oneSection ts || oneAtomicRmw ts
+
+/-! ## The counter is only ever incremented
+
+The extractor lists every place in package `engine/pool` that writes the id counter field:
+`inc` (`x++`, `x += k`, `atomic.Add…(&x, k)` with a positive literal), `init` (a composite
+literal of the pool type — the constructor), `assign` (any other assignment), `dec`, and
+`unknown` (address taken, anything the extractor does not understand). Three-valued: `none` =
+cannot tell. -/
+
+def counterMonotone (ws : List (String × String)) : Option Bool :=
+  if ws.any (fun w => w.2 != "inc" && w.2 != "init" && w.2 != "assign" && w.2 != "dec") then none
+  else some (ws.all (fun w => w.2 = "inc" || w.2 = "init") && ws.any (fun w => w.2 = "inc"))
 
 end Ecal.ThreadId
